@@ -665,6 +665,12 @@ class Intrinsics:
         if P.txns:
             from .interp import MergeAbort
             raise MergeAbort()
+        if type(xs).__name__ == 'SymSetImage' and type(xs.set).__name__ == 'SymBag':
+            # zipseqs: message lines built from an append-only list (text of exception messages is not modelled;
+            # the element expression -- stmt.format(), loc.format() -- is NOT evaluated)
+            from .values import Opaque
+            recv.append(Opaque('message-lines:str'))
+            return
         recv.extend(P.iterate(xs))
 
     def m_list_pop(self, P, recv, i=-1):
